@@ -142,6 +142,26 @@ fn situations(t: M) -> Vec<(String, Vec<ClauseSpec>)> {
             "explicit-default-on0".into(),
             vec![single(Entry::EachCall, 1, vec![seg(Resp::DefaultImpl, Quant::Open)])],
         ),
+        // a pattern that accepts but has no response at all: a loud failure, never a fall-through
+        (
+            "stub-accepting0-without-response".into(),
+            vec![ClauseSpec::Stub {
+                m: t,
+                pats: vec![
+                    PatSpec { mask: 1, segs: vec![] },
+                    PatSpec {
+                        mask: 4,
+                        segs: vec![seg(Resp::Ret(104), Quant::Open)],
+                    },
+                ],
+            }],
+        ),
+        // an exactly quantified unordered pattern stays *the* pattern of its calls when its count
+        // is used up: one call more is an over-call of that pattern (counted), not an unmatched call
+        (
+            "unordered-exact1-on0".into(),
+            vec![single(Entry::EachCall, 1, vec![seg(Resp::Ret(105), Quant::N(1))])],
+        ),
     ]
 }
 
